@@ -5,6 +5,7 @@ import Proofs.SkipLinks
 import Proofs.SkipMLP
 import Proofs.SkipTyped
 import Proofs.SkipReshape
+import Proofs.SkipTypedE
 
 /-!
 # C16 — skip connections combine source and target inputs as configured
@@ -1013,6 +1014,160 @@ theorem spatial_source_into_flat_target_gradient {c h w kh kw k : ℕ} (n : Netw
       simp only [Function.comp_apply, hFz]
     rw [← this]
     exact h6
+
+open LayerChain SkipWalk SkipNet SkipReshape VJP ChainLinks DenseStack DenseBridge ConvVJP ConvBridge ConvNet Flat3 in
+/-- **a spatial source into any flat targets, among any other connections**: a shape-preserving convolution whose output
+    is flattened, then any number of square dense layers, then a dense stack; ANY table of additive connections whose
+    targets are dense layers — their sources may be the convolution's `c × h × w` input (position 0: `Network::skip_input`
+    reshapes it to the flat target, `backward` reshapes the target's gradient back to `c × h × w`) or flat positions
+    (chains, shared sources, nested, self connections).  The network computes the specified function of the image and
+    hands back the gradient of the objective with respect to the image. -/
+theorem spatial_source_into_flat_stack_gradient {c h w kh kw k : ℕ} (n : Network ℝ)
+    (l : Conv ℝ) (a0 : Act) (K : V (I4 c c kh kw)) (hl0 : IsConv l a0 K h w h w) (ha0 : a0 ≠ .softmax) (hf0 : l.flatten = true)
+    (blocks : List (Act × V (Fin (c * h * w) × Fin (c * h * w)) × Vec (c * h * w))) (tbl : List (Nat × Nat))
+    (hvb : ∀ q ∈ blocks, q.1 ≠ .softmax) (hw : 0 < w)
+    (s : Stack (c * h * w) k) (hv : s.Valid)
+    (hl : n.layers = .conv l :: (blocks.map denseLink).map (·.l) ++ s.layers) (hc : n.connect = tbl)
+    (hacc : n.skipaccumulation = .add) (hlb : n.loopbacks = [])
+    (hkeys : (tbl.map Prod.fst).Nodup) (hbd : ∀ e ∈ tbl, e.2 ≤ e.1 ∧ 1 ≤ e.1 ∧ e.1 < blocks.length + 1)
+    (x : V (I3 c h w)) (ℓ : Vec k → ℝ) (g : Vec k) :
+    let N := dagNet (convFlatLink (h := h) (w := w) (l, a0, K) :: blocks.map denseLink) tbl
+    let F := fun z : V (I3 c h w) => s.net.fwd (SkipDag.U N (blocks.length + 1) (flat z))
+    (∀ i, NoKink a0 (pre l K h w h w x i)) →
+    (∀ (j : Nat) q, blocks[j]? = some q → ∀ i, NoKink q.1 (densePre q.2.1 q.2.2 (SkipDag.P N (j + 1) (flat x)) i)) →
+    s.NoKinks (SkipDag.U N (blocks.length + 1) (flat x)) →
+    IsGrad ℓ (F x) g →
+    ∃ t ws bs gs γ,
+      n.forward (T3 x) = .ok t ∧ t.act.getLast? = some (vecT (F x)) ∧
+      n.backward (vecT g) t = .ok (ws, bs, gs) ∧ gs.getLast? = some (T3 γ) ∧ IsGrad (ℓ ∘ F) x γ := by
+  intro N F hk0 hkb hks hg
+  obtain ⟨hcp, _, _, hhp, _⟩ := hl0.pos
+  have hm : 0 < c * h * w := Nat.mul_pos (Nat.mul_pos hcp hhp) hw
+  let body : List (Link (iVec (c * h * w))) := convFlatLink (h := h) (w := w) (l, a0, K) :: blocks.map denseLink
+  have hlen : body.length = blocks.length + 1 := by simp [body]
+  let head : Chain (iVec (c * h * w)) (emFS c h w 0) (iVec (c * h * w)) (emFS c h w 0) := Chain.nil _ _
+  let tail : Chain (iVec (c * h * w)) (emFS c h w (blocks.length + 1)) (iVec k) (eVec k) := stackChain s
+  have hnet : IsDagNet (em := emFS c h w) head body tbl tail n := by
+    refine ⟨?_, ?_, hacc, hlb, hkeys, ?_⟩
+    · rw [hl]; simp [LayerChain.layers, head, tail, body, convFlatLink]
+      exact (stackChain_layers s).symm
+    · rw [hc]
+      simp only [LayerChain.layers, head, List.length_nil]
+      have : shift 0 = id := by funext e; simp [shift]
+      rw [this, List.map_id]
+    · intro e he
+      have := hbd e he
+      rw [hlen]
+      exact ⟨this.1, this.2.2⟩
+  have hcomp : ∀ t s', Assoc.find? tbl t = some s' → Compat (emFS c h w t) (emFS c h w s') := by
+    intro t s' hts
+    have hmem := SkipTable.find?_mem tbl t s' hts
+    have hb := hbd (t, s') hmem
+    simp only at hb
+    obtain ⟨t', rfl⟩ : ∃ t', t = t' + 1 := ⟨t - 1, by omega⟩
+    cases s' with
+    | zero => exact compat_flat_vol hcp hhp
+    | succ s'' => exact compat_of_encAdd (encAdd_vec (c * h * w))
+  have hS0 : (dagNet body tbl).S 0 = none := by
+    show Assoc.find? tbl 0 = none
+    apply SkipTable.find?_none
+    intro h0
+    obtain ⟨e, he, he0⟩ := List.mem_map.mp h0
+    have := (hbd e he).2.1
+    omega
+  have hU0 : ∀ z : Vec (c * h * w), SkipDag.U (dagNet body tbl) 0 z = z := by intro z; rw [SkipDag.U]
+  have hP0 : ∀ z : Vec (c * h * w), SkipDag.P (dagNet body tbl) 0 z = z := by
+    intro z; rw [P_of_none _ _ _ hS0, hU0]
+  have hFz : ∀ z, dagFn (em := emFS c h w) head body tbl tail (flat z) = F z := by
+    intro z
+    show (gnet (stackChain s)).fwd (SkipDag.U (dagNet body tbl) body.length (flat z)) = _
+    rw [stack_gnet_fwd, hlen]
+  have hgf : ∀ z : Vec (c * h * w), (gnet head).fwd z = z := fun _ => rfl
+  have hreal : ∀ j (lk : Link (iVec (c * h * w))), body[j]? = some lk →
+      lk.Real (emFS c h w j) (emFS c h w (j + 1)) (SkipDag.P (dagNet body tbl) j ((gnet head).fwd (flat x))) := by
+    intro j lk hlk
+    match j, hlk with
+    | 0, hlk =>
+      simp only [body, List.getElem?_cons_zero, Option.some.injEq] at hlk
+      subst hlk
+      exact convFlatLink_real (l, a0, K) hl0 ha0 hf0 _
+    | j + 1, hlk =>
+      simp only [body, List.getElem?_cons_succ, List.getElem?_map] at hlk
+      cases hq : blocks[j]? with
+      | none => rw [hq] at hlk; cases hlk
+      | some q =>
+        rw [hq] at hlk
+        simp only [Option.map_some, Option.some.injEq] at hlk
+        subst hlk
+        exact denseLink_real q (hvb q (List.mem_of_getElem? hq)) hm _
+  have hvjp : ∀ j (lk : Link (iVec (c * h * w))), body[j]? = some lk →
+      IsVJP lk.f (SkipDag.P (dagNet body tbl) j ((gnet head).fwd (flat x))) (lk.b (SkipDag.P (dagNet body tbl) j ((gnet head).fwd (flat x)))) := by
+    intro j lk hlk
+    rw [hgf]
+    match j, hlk with
+    | 0, hlk =>
+      simp only [body, List.getElem?_cons_zero, Option.some.injEq] at hlk
+      subst hlk
+      rw [hP0]
+      exact convFlatLink_vjp (l, a0, K) hl0 ha0 (flat x) (by simpa [unflat_flat] using hk0)
+    | j + 1, hlk =>
+      simp only [body, List.getElem?_cons_succ, List.getElem?_map] at hlk
+      cases hq : blocks[j]? with
+      | none => rw [hq] at hlk; cases hlk
+      | some q =>
+        rw [hq] at hlk
+        simp only [Option.map_some, Option.some.injEq] at hlk
+        subst hlk
+        exact denseLink_vjp q (hvb q (List.mem_of_getElem? hq)) _ (hkb j q hq)
+  have htr : Real tail (SkipDag.U (dagNet body tbl) body.length ((gnet head).fwd (flat x))) := by
+    show Real (stackChain s) _
+    exact stackChain_real s _ hv
+  have hto : (gnet tail).Ok (SkipDag.U (dagNet body tbl) body.length ((gnet head).fwd (flat x))) := by
+    show (gnet (stackChain s)).Ok (SkipDag.U (dagNet body tbl) body.length (flat x))
+    rw [hlen]
+    exact stackChain_ok s _ hv hks
+  obtain ⟨t, ws, bs, gs, γ, h1, h2, h3, h4, h5, _⟩ :=
+    dag_network_gradient (em := emFS c h w) head body tbl tail n hnet hcomp (flat x) trivial hreal htr trivial hvjp hto ℓ g
+      (by rw [hFz]; exact hg)
+  have hin : emFS c h w 0 (flat x) = T3 x := by
+    show eVolFlat c h w (flat x) = T3 x
+    simp only [eVolFlat, unflat_flat]
+  refine ⟨t, ws, bs, gs, unflat γ, ?_, ?_, h3, ?_, ?_⟩
+  · rw [← hin]; exact h1
+  · rw [h2, hFz]; rfl
+  · rw [h4]; rfl
+  · have h6 := IsGrad.comp_vjp (flat_isVJP (c := c) (h := h) (w := w) x) h5
+    have : (ℓ ∘ dagFn (em := emFS c h w) head body tbl tail) ∘ flat = ℓ ∘ F := by
+      funext z
+      simp only [Function.comp_apply, hFz]
+    rw [← this]
+    exact h6
+
+open LayerChain SkipWalk SkipNet SkipPad SkipTyped SkipTypedE VJP in
+/-- **typed layers, any table, position-indexed encodings**: `typed_layers_any_skips_network_gradient` with the tensor
+    form of a slot chosen per position (`enc j k`): two positions of one slot can be connected as soon as the encodings
+    at the two ends are compatible — equal encodings that add, or a flat and a `c × h × w` form of the same vectors
+    (`SkipReshape.compat_flat_vol`, `compat_vol_flat`: the library's reshape between them is the row-major re-indexing).
+    So flat↔spatial connections are covered for every typed layer sequence, in any number and combination. -/
+theorem typed_layers_positional_encodings_gradient {K : Type} [Fintype K] [DecidableEq K] [Inhabited K] {T : K → Type} [∀ k, Fintype (T k)]
+    (enc : Nat → (k : K) → Enc ⟨T k⟩) (n : Network ℝ) (ds : List (TLink T)) (tbl : List (Nat × Nat))
+    (hl : n.layers = ds.map (·.l))
+    (hc : n.connect = tbl) (hacc : n.skipaccumulation = .add) (hlb : n.loopbacks = [])
+    (hkeys : (tbl.map Prod.fst).Nodup) (hbd : ∀ e ∈ tbl, e.2 ≤ e.1 ∧ e.1 < ds.length)
+    (hw : ∀ e ∈ tbl, ∃ hs : slotAt ds e.2 = slotAt ds e.1, Compat (enc e.1 (slotAt ds e.1)) (hs ▸ enc e.2 (slotAt ds e.2)))
+    (hfit : Fits ds)
+    (x₀ : V (T (slotAt ds 0))) (ℓ : V (T (slotAt ds ds.length)) → ℝ) (g₀ : V (T (slotAt ds ds.length))) :
+    let N := dagNet (ds.map tlink) tbl
+    let F := fun z : V (T (slotAt ds 0)) => proj T (slotAt ds ds.length) (SkipDag.U N ds.length (emb T (slotAt ds 0) z))
+    (∀ (j : Nat) d, ds[j]? = some d → RealAt enc j d (proj T d.k₁ (SkipDag.P N j (emb T (slotAt ds 0) x₀)))) →
+    (∀ (j : Nat) d, ds[j]? = some d → IsVJP d.f (proj T d.k₁ (SkipDag.P N j (emb T (slotAt ds 0) x₀)))
+      (d.b (proj T d.k₁ (SkipDag.P N j (emb T (slotAt ds 0) x₀))))) →
+    IsGrad ℓ (F x₀) g₀ →
+    ∃ t ws bs gs γ,
+      n.forward (enc 0 (slotAt ds 0) x₀) = .ok t ∧ t.act.getLast? = some (enc ds.length (slotAt ds ds.length) (F x₀)) ∧
+      n.backward (enc ds.length (slotAt ds ds.length) g₀) t = .ok (ws, bs, gs) ∧ gs.getLast? = some (enc 0 (slotAt ds 0) γ) ∧
+      IsGrad (ℓ ∘ F) x₀ γ :=
+  typed_skip_enc_network_gradient enc n ds tbl hl hc hacc hlb hkeys hbd hw hfit x₀ ℓ g₀
 
 open LayerChain SkipWalk SkipNet SkipPad SkipMLP VJP ChainLinks DenseStack DenseBridge in
 /-- **every weight matrix of a perceptron of arbitrary widths with any table of additive skip connections**: the weight
